@@ -97,6 +97,33 @@ def materialise(response, outdir):
             fh.write(f.content)
 
 
+def materialise_dep_pb2(req, api, outdir):
+    """Model files that are dependencies only (not in file_to_generate) have no installed _pb2 module: write the
+    module protoc's python plugin would emit for each (serialized descriptor added to the default pool)."""
+    own = {f["name"] for f in api["files"]}
+    targets = set(req.file_to_generate)
+    n = 0
+    for fd in req.proto_file:
+        if fd.name not in own or fd.name in targets:
+            continue
+        mod = fd.name[:-len(".proto")].replace("-", "_").replace("/", ".") + "_pb2"
+        p = os.path.join(outdir, mod.replace(".", "/") + ".py")
+        os.makedirs(os.path.dirname(p), exist_ok=True)
+        deps = [d[:-len(".proto")].replace("-", "_").replace("/", ".") + "_pb2" for d in fd.dependency]
+        with open(p, "w", encoding="utf-8") as fh:
+            fh.write("# emulation of protoc --python_out for a dependency-only file of the model\n"
+                     "import importlib\n"
+                     "from google.protobuf import descriptor_pool as _descriptor_pool\n"
+                     "from google.protobuf.internal import builder as _builder\n"
+                     + "".join(f"importlib.import_module({d!r})\n" for d in deps)
+                     + f"DESCRIPTOR = _descriptor_pool.Default().AddSerializedFile({fd.SerializeToString()!r})\n"
+                     "_globals = globals()\n"
+                     "_builder.BuildMessageAndEnumDescriptors(DESCRIPTOR, _globals)\n"
+                     f"_builder.BuildTopDescriptorsAndMessages(DESCRIPTOR, {mod!r}, _globals)\n")
+        n += 1
+    return n
+
+
 def exercise(prop, casedir, outdir, req, api, options, inner, timeout=600):
     """Run harness.exerciser in a fresh interpreter. Returns the result dict.
     A crash of the exerciser itself is reported as {"harness_error": ...}."""
